@@ -1,11 +1,14 @@
 /* drv_obs.c -- driver for C11: a real libcoap server with observable resources on the simulator, scripted observers.
  *
  * usage: drv_obs <cases.txt> <out.ndjson>
- *   X id=<n> mode=<0 default | 1 NOTIFY_CON | 2 NOTIFY_NON_ALWAYS> start=<initial observe counter> nres=<1..3>
+ *   X id=<n> mode=<0 default | 1 NOTIFY_CON | 2 NOTIFY_NON_ALWAYS> start=<initial observe counter> nres=<1..3> big=<body length, 0 = just the state number>
+ *     big > 0: the representation is the state number padded to that length and handed over with coap_add_data_large_response(): libcoap cuts it
+ *     into blocks of 32 bytes (the observer's requests carry Block2 with that size); a notification then carries the first block (Block2 0/M) and the observer may fetch the rest (policy fetch)
  *   G <client> <res> <tokhex> [query]    register: CON GET, Observe=0
  *   U <client> <res> <tokhex> [query]    cancel:   CON GET, Observe=1
  *   P <client> <policy>                  reaction to notifications from now on:
  *                                        ack (ACK every CON) | drop (never answer) | rst (RST to CON) | rstall (RST to CON and NON)
+ *                                        | fetch (ACK every CON, and ask for the remaining blocks of a notification that announces more)
  *                                        | rstold (RST, some time later, carrying the message id of the notification BEFORE the last one)
  *   H <res> [k]                          k (default 1) resource changes signalled by the application back to back
  *   M <res> <code>                       from now on the resource's GET handler answers with this code (e.g. 132 = 4.04)
@@ -23,8 +26,10 @@ static coap_context_t *ctx;
 static coap_address_t srv_addr, cli_addr[NCLI];
 static coap_resource_t *res[NRES];
 static int state[NRES], hcode[NRES], alive[NRES];
-static int policy[NCLI];   /* 0 ack 1 drop 2 rst 3 rstall 4 rstold */
+static int policy[NCLI];   /* 0 ack 1 drop 2 rst 3 rstall 4 rstold 5 fetch */
+static int big;
 static int lastmid[NCLI], prevmid[NCLI];
+static char lastpath[NCLI][8];      /* the resource a client registered for last (for block fetches) */
 static uint16_t cmid = 1;
 
 static size_t unhex(const char *h, uint8_t *b, size_t cap) {
@@ -47,13 +52,21 @@ static int cli_of(const coap_address_t *a) {
 static void hnd(coap_resource_t *r, coap_session_t *s, const coap_pdu_t *req, const coap_string_t *q, coap_pdu_t *resp) {
   int i, k = -1;
   char buf[16];
-  (void)s; (void)req; (void)q;
   for (i = 0; i < NRES; i++) if (res[i] == r) k = i;
   if (k < 0) return;
   if (hcode[k] != 69) { coap_pdu_set_code(resp, (coap_pdu_code_t)hcode[k]); return; }
   coap_pdu_set_code(resp, COAP_RESPONSE_CODE_CONTENT);
   snprintf(buf, sizeof(buf), "%d", state[k]);
-  coap_add_data(resp, strlen(buf), (const uint8_t *)buf);
+  if (!big) coap_add_data(resp, strlen(buf), (const uint8_t *)buf);
+  else {
+    /* the state number, a blank, padding: one representation per state, several blocks long */
+    static uint8_t body[NRES][2048];
+    size_t n = strlen(buf), L = (size_t)big < sizeof(body[0]) ? (size_t)big : sizeof(body[0]);
+    memset(body[k], 'x', L);
+    memcpy(body[k], buf, n);
+    if (n < L) body[k][n] = ' ';
+    coap_add_data_large_response(r, s, req, resp, q, COAP_MEDIATYPE_TEXT_PLAIN, -1, (uint64_t)state[k] + 1, L, body[k], NULL, NULL);
+  }
 }
 
 static void send_raw(int c, const uint8_t *b, size_t n) {
@@ -62,7 +75,7 @@ static void send_raw(int c, const uint8_t *b, size_t n) {
 
 static void on_peer_rx(const sim_dgram_t *dg) {
   const uint8_t *d = dg->data;
-  int c = cli_of(&dg->dst), ty, tkl, code, mid, obs = -1, st = -1;
+  int c = cli_of(&dg->dst), ty, tkl, code, mid, obs = -1, st = -1, b2num = -1, b2more = 0, b2szx = 0;
   size_t i, num = 0;
   if (c < 0 || dg->len < 4) return;
   ty = (d[0] >> 4) & 3; tkl = d[0] & 15; code = d[1]; mid = (d[2] << 8) | d[3];
@@ -74,6 +87,7 @@ static void on_peer_rx(const sim_dgram_t *dg) {
     if (l == 13) { l = d[i] + 13u; i++; } else if (l == 14) { l = (size_t)((d[i] << 8) | d[i + 1]) + 269; i += 2; }
     num += dl;
     if (num == 6) { size_t k; obs = 0; for (k = 0; k < l; k++) obs = (obs << 8) | d[i + k]; }
+    if (num == 23) { size_t k; unsigned v = 0; for (k = 0; k < l; k++) v = (v << 8) | d[i + k]; b2num = (int)(v >> 4); b2more = (v >> 3) & 1; b2szx = (int)(v & 7); }
     i += l;
   }
   if (i < dg->len && d[i] == 0xff) {
@@ -86,11 +100,22 @@ static void on_peer_rx(const sim_dgram_t *dg) {
   arr(d + 4, (size_t)tkl <= 8 ? (size_t)tkl : 0);
   fputs("}\n", sim_trace);
   if (code == 0) return;                          /* empty ACK / RST from the server */
+  if (policy[c] == 5 && code == 69 && b2num >= 0 && b2more) {
+    /* ask for the next block of this representation: a plain GET (no Observe) with Block2, under a token of its own */
+    uint8_t g[48];
+    size_t n = 0, pl = strlen(lastpath[c]);
+    uint16_t m = cmid++;
+    unsigned v = ((unsigned)(b2num + 1) << 4) | (unsigned)b2szx;
+    g[n++] = 0x41; g[n++] = 1; g[n++] = (uint8_t)(m >> 8); g[n++] = (uint8_t)m; g[n++] = (uint8_t)(0xf0 + c);
+    g[n++] = (uint8_t)(0xb0 | pl); memcpy(g + n, lastpath[c], pl); n += pl;                 /* Uri-Path (11) */
+    if (v < 256) { g[n++] = 0xc1; g[n++] = (uint8_t)v; } else { g[n++] = 0xc2; g[n++] = (uint8_t)(v >> 8); g[n++] = (uint8_t)v; }   /* Block2 (23) */
+    send_raw(c, g, n);
+  }
   if (ty == 0 || ty == 1) {                       /* a notification (separate message) */
     uint8_t r[4];
     if (mid != lastmid[c]) { prevmid[c] = lastmid[c]; lastmid[c] = mid; }
     r[1] = 0; r[2] = (uint8_t)(mid >> 8); r[3] = (uint8_t)mid;
-    if (ty == 0 && policy[c] == 0) {
+    if (ty == 0 && (policy[c] == 0 || policy[c] == 5)) {
       r[0] = 0x60; send_raw(c, r, 4);
       fprintf(sim_trace, "{\"e\":\"AckSent\",\"c\":%d,\"mid\":%d}\n", c, mid);
     } else if ((ty == 0 && (policy[c] == 2 || policy[c] == 3)) || (ty == 1 && policy[c] == 3)) {
@@ -111,11 +136,13 @@ static void get(int c, int r, const char *tokhex, const char *query, int obsval,
   char name[4];
   uint16_t mid = cmid++;
   snprintf(name, sizeof(name), "o%d", r);
+  if (obsval == 0) snprintf(lastpath[c], sizeof(lastpath[c]), "o%d", r);
   b[n++] = (uint8_t)(0x40 | tl); b[n++] = 1; b[n++] = mid >> 8; b[n++] = mid & 255;
   memcpy(b + n, tok, tl); n += tl;
   if (obsval == 0) b[n++] = 0x60; else { b[n++] = 0x61; b[n++] = (uint8_t)obsval; }    /* Observe (6) */
   b[n++] = 0x52; b[n++] = (uint8_t)name[0]; b[n++] = (uint8_t)name[1];                  /* Uri-Path (11): delta 5 */
   if (ql && ql < 13) { b[n++] = (uint8_t)(0x40 | ql); memcpy(b + n, query, ql); n += ql; }   /* Uri-Query (15) */
+  if (big) { b[n++] = (uint8_t)((ql && ql < 13) ? 0x81 : 0xc1); b[n++] = 0x01; }             /* Block2 (23): block 0, 32 bytes - the observer asks for small blocks */
   fprintf(sim_trace, "{\"e\":\"%s\",\"t\":%llu,\"c\":%d,\"res\":%d,\"mid\":%d,\"q\":\"%s\",\"tok\":", ev, (unsigned long long)sim_now, c, r, mid,
           query ? query : "");
   arr(tok, tl);
@@ -141,7 +168,7 @@ int main(int argc, char **argv) {
   if (!in || !sim_trace) return 2;
   setvbuf(sim_trace, NULL, _IOFBF, 1 << 20);
   coap_startup();
-  coap_set_log_level(COAP_LOG_EMERG);
+  coap_set_log_level(getenv("DRV_DEBUG") ? COAP_LOG_DEBUG : COAP_LOG_EMERG);
   coap_set_prng(prng);
   sim_hooks.on_peer_rx = on_peer_rx;
   sim_trace_io = 0;
@@ -157,9 +184,11 @@ int main(int argc, char **argv) {
       if ((p = strstr(line, "mode="))) mode = atoi(p + 5);
       if ((p = strstr(line, "start="))) start = (unsigned)atol(p + 6);
       if ((p = strstr(line, "nres="))) nres = atoi(p + 5);
+      big = (p = strstr(line, "big=")) ? atoi(p + 4) : 0;
       if (ctx) { sim_remove_node(ctx); coap_free_context(ctx); }
       sim_reset(1000);
       ctx = coap_new_context(NULL);
+      if (big) { coap_context_set_block_mode(ctx, COAP_BLOCK_USE_LIBCOAP); coap_context_set_max_block_size(ctx, 32); }
       sim_addr(&srv_addr, "127.0.0.1", 0);
       ep = coap_new_endpoint(ctx, &srv_addr, COAP_PROTO_UDP);
       srv_addr = ep->bind_addr;
@@ -189,7 +218,7 @@ int main(int argc, char **argv) {
       break;
     case 'P':
       if (sscanf(line + 1, "%d %63s", &v1, a) == 2 && v1 >= 0 && v1 < NCLI) {
-        policy[v1] = !strcmp(a, "ack") ? 0 : !strcmp(a, "drop") ? 1 : !strcmp(a, "rst") ? 2 : !strcmp(a, "rstall") ? 3 : 4;
+        policy[v1] = !strcmp(a, "ack") ? 0 : !strcmp(a, "drop") ? 1 : !strcmp(a, "rst") ? 2 : !strcmp(a, "rstall") ? 3 : !strcmp(a, "fetch") ? 5 : 4;
         fprintf(sim_trace, "{\"e\":\"Policy\",\"c\":%d,\"p\":\"%s\"}\n", v1, a);
       }
       break;
